@@ -274,6 +274,30 @@ def check_cases(chk: Check, cases, fixed: bool):
         if sp_fields:
             chk.count('species:fields')
         unexplained = False
+
+        def judge(reads, alldiffs, rorder, where, c=c, run=run):
+            bad = False
+            for k, (rd, diffs) in enumerate(zip(reads, alldiffs)):
+                if rd is None:
+                    continue
+                if rd[0] == 'err':
+                    sig = classify_read_error(c, k, rd[1], rorder=rorder)
+                    r = chk.fail(f'{c["uid"]} ({c["layout"]}): trajectory {k} (n={c["trajs"][k]["n"]}) cannot be read '
+                                 f'back {where}: {rd[2]}', {'case': c, 'trajectory': k, 'error': rd[1:], 'where': where},
+                                 signature=sig)
+                    bad |= r != 'known'
+                    continue
+                for (i, j, kinds) in diffs:
+                    sig = classify_diff(c, k, i, j, kinds, fixed) if j >= 0 else None
+                    fld = (c['sets'][i - 1]['fields'][j] if i > 0 else {'shape': 'base', 'dtype': ''}) if j >= 0 else {}
+                    r = chk.fail(f'{c["uid"]} ({c["layout"]}): trajectory {k} {where}, field set {i}, field {j} '
+                                 f'({fld.get("shape")} {fld.get("dtype")}): {", ".join(kinds)}; '
+                                 f'file species {run.file_species.get(str(i))}',
+                                 {'case': c, 'trajectory': k, 'set': i, 'field': j, 'kinds': kinds, 'where': where,
+                                  'written': run.written[k][str(i)][j] if j >= 0 else None,
+                                  'read': rd[1][str(i)][j] if j >= 0 else None}, signature=sig)
+                    bad |= r != 'known'
+            return bad
         # ---- oracle ----
         if run.outcome[0] == 'Refused':
             chk.count('outcome:refused:' + run.outcome[3][:12])
@@ -284,23 +308,16 @@ def check_cases(chk: Check, cases, fixed: bool):
                 unexplained = r != 'known'
         else:
             chk.count('outcome:added')
-            for k, (rd, diffs) in enumerate(zip(run.outcome[1], run.diffs)):
-                if rd[0] == 'err':
-                    sig = classify_read_error(c, k, rd[1], rorder=run.rorder)
-                    r = chk.fail(f'{c["uid"]} ({c["layout"]}): trajectory {k} (n={c["trajs"][k]["n"]}) cannot be read '
-                                 f'back: {rd[2]}', {'case': c, 'trajectory': k, 'error': rd[1:]}, signature=sig)
-                    unexplained |= r != 'known'
-                    continue
-                for (i, j, kinds) in diffs:
-                    sig = classify_diff(c, k, i, j, kinds, fixed) if j >= 0 else None
-                    fld = (c['sets'][i - 1]['fields'][j] if i > 0 else {'shape': 'base', 'dtype': ''}) if j >= 0 else {}
-                    r = chk.fail(f'{c["uid"]} ({c["layout"]}): trajectory {k}, field set {i}, field {j} '
-                                 f'({fld.get("shape")} {fld.get("dtype")}): {", ".join(kinds)}; '
-                                 f'file species {run.file_species.get(str(i))}',
-                                 {'case': c, 'trajectory': k, 'set': i, 'field': j, 'kinds': kinds,
-                                  'written': run.written[k][str(i)][j] if j >= 0 else None,
-                                  'read': rd[1][str(i)][j] if j >= 0 else None}, signature=sig)
-                    unexplained |= r != 'known'
+            unexplained |= judge(run.outcome[1], run.diffs, run.rorder, 'after reopening')
+        if run.session_reads is not None:
+            # reads made INSIDE the append session (before the close): same oracle, against what was added at each index
+            chk.count('special:append-session')
+            unexplained |= judge(run.session_reads, run.session_diffs, run.session_rorder, 'inside the append session')
+            if run.outcome[0] == 'Added' and not unexplained:
+                for k, (a, b) in enumerate(zip(run.session_reads, run.outcome[1])):
+                    if a is not None and json.loads(json.dumps(a[:2])) != json.loads(json.dumps(b[:2])):
+                        chk.broken('correspondence:append-session', f'{c["uid"]}: trajectory {k} reads differently inside '
+                                                                    'the append session and after reopening', c)
         if unexplained or mo is None or (run.outcome[0] == 'Refused' and run.outcome[1] == 0):
             continue                  # (nothing reached the store: the model has nothing to say)
         # ---- correspondence with the model ----
@@ -560,6 +577,14 @@ def run(chk: Check):
                 cases.append(c)
                 got += 1
                 chk.count(f'special:species-grow-after-first-record:{layout}')
+    # append sessions: create with some trajectories, close, TrajectoryStore.append, add more, read EVERY index inside
+    # the session (old ones first), close, reopen READ, read all again
+    for k in range(chk.n(12, 120)):
+        c = U.gen_case(chk.rng, f'c03a{chk.seed}_{k}', force={'layout': chk.rng.choice(['single', 'single', 'assoc', 'assocn']),
+                                                              'append': True})
+        if c.get('append_at') is not None and not any(f['shape'] == 'TP' and f['dtype'] == 'str'
+                                                      for fs in c['sets'] for f in fs['fields']):
+            cases.append(c)
     check_cases(chk, cases, fixed)
     per_trajectory_string_hole(chk)
     two_open_stores(chk)
